@@ -111,6 +111,29 @@ impl Directive {
             messages,
         } = context;
 
+        if let DirectiveOps::OpList(values) = opts {
+            if values.is_empty() {
+                match self {
+                    Directive::Undef
+                    | Directive::Byte
+                    | Directive::Org
+                    | Directive::Device
+                    | Directive::Include
+                    | Directive::IncludePath
+                    | Directive::If
+                    | Directive::ElIf
+                    | Directive::IfDef
+                    | Directive::IfNDef
+                    | Directive::Define
+                    | Directive::Macro
+                    | Directive::Message
+                    | Directive::Warning
+                    | Directive::Error => bail!("missing operand for .{}, {}", self, point),
+                    _ => {}
+                }
+            }
+        }
+
         match self {
             Directive::Db | Directive::Dw | Directive::Dd | Directive::Dq => {
                 if let DirectiveOps::OpList(args) = opts {
